@@ -95,6 +95,22 @@ pub async fn run(sink: &mut Sink, ss: &mut Streams) {
             sink.notes.push(format!("key is the second column, UpdateAll + Delete, source (9,3): rows after = {} deleted={} (SQL MERGE: (9,3) only, deleted=2)", fmt_rows(&o.rows), s.2));
         }
     }
+    // stable row ids: the indexed join sees a row twice once an update has moved it out of the indexed fragments
+    {
+        let rows: Vec<Row> = (0..6).map(|i| r(&[i, 10 * i])).collect();
+        let mut t = Tbl::create(int(2), &rows, 1, true).await;
+        t.create_index().await.unwrap();
+        let mut hist = vec!["special: create k=0..5 (stable row ids); create_index btree(c0)".to_string()];
+        let before = t.layout().await.unwrap();
+        let p = B::Cmp(Cmp::Eq, V::Col(0, Ty::Int), V::Lit(Some(2), Ty::Int));
+        // (the predicate mentions the indexed column here on purpose: a plain equality)
+        if update_case(sink, &mut ss.upd, &mut t, next(), &mut hist, &before, &p, &[(1usize, V::Lit(Some(99), Ty::Int))], &cf, "special-idxdup-1").await {
+            let before = t.layout().await.unwrap();
+            let st = settings(vec![0, 1], 2, Wm::UpdateAll, true, Ns::Keep, true);
+            let out = merge_case(sink, &mut ss.mrg, &mut t, next(), &mut hist, &before, &st, &[r(&[2, 7])], 1, true, &cf, "special-idxdup-2").await;
+            sink.notes.push(format!("stable row ids, index on k, update k=2, then indexed UpdateAll merge with the single source row k=2: {:?} (SQL MERGE: one row updated)", out.map(|x| x.map(|(o, s)| (fmt_rows(&o.rows), s)))));
+        }
+    }
     // UPDATE SET a = b, b = a
     {
         let mut t = Tbl::create(int(3), &[r(&[1, 10, 20]), r(&[2, 30, 40])], 1, false).await;
